@@ -373,6 +373,8 @@ class OrderedFlow:
         self.seq = 0
         self.bad: Dict[str, str] = {}
         self.snapshots: List[tuple] = []        # (call node, abstract value of its arguments' names at that point)
+        self.false_flags: set = set()           # locals bound to False so far and not re-bound
+        self.flag_meaning: Dict[str, ast.AST] = {}      # found-flags: `flag` means `C in SRC`
         self._block(list(fn_node.body), [])
 
     def _src(self, e: ast.AST) -> str:
@@ -433,6 +435,22 @@ class OrderedFlow:
 
     def _block(self, stmts, when):
         for st in stmts:
+            if isinstance(st, ast.Assign) and len(st.targets) == 1 and isinstance(st.targets[0], ast.Name) \
+                    and isinstance(st.value, ast.Constant) and st.value.value is False and st.targets[0].id not in self.env:
+                self.false_flags.add(st.targets[0].id)
+                self.flag_meaning.pop(st.targets[0].id, None)
+                continue
+            if isinstance(st, ast.For) and not st.orelse and isinstance(st.target, ast.Tuple) and len(st.target.elts) == 2 \
+                    and all(isinstance(x, ast.Name) for x in st.target.elts) and isinstance(st.iter, ast.Call) \
+                    and isinstance(st.iter.func, ast.Attribute) and st.iter.func.attr == 'items' and not st.iter.args and len(st.body) == 1:
+                # `for k, v in E.items(): d[k] = v` is d.update(E.items())
+                b = st.body[0]
+                kn, vn = st.target.elts[0].id, st.target.elts[1].id
+                if isinstance(b, ast.Assign) and len(b.targets) == 1 and isinstance(b.targets[0], ast.Subscript) \
+                        and isinstance(b.targets[0].value, ast.Name) and isinstance(self.env.get(b.targets[0].value.id), OAbs) \
+                        and isinstance(b.targets[0].slice, ast.Name) and b.targets[0].slice.id == kn and isinstance(b.value, ast.Name) and b.value.id == vn:
+                    self.env[b.targets[0].value.id].parts.append(OPart(self._src(st.iter.func.value), K, 'V', TRUE, when, self._next(), whole=True))
+                    continue
             if isinstance(st, ast.Assign) and len(st.targets) == 1 and isinstance(st.targets[0], ast.Name):
                 v = self._value(st.value, when)
                 name = st.targets[0].id
@@ -468,7 +486,10 @@ class OrderedFlow:
                 self._spoil(st)
                 continue
             if isinstance(st, ast.If):
-                t, p = self.canon_atom(self.alpha.rewrite(st.test) if self.alpha is not None else st.test)
+                test = st.test
+                if isinstance(test, ast.Name) and test.id in self.flag_meaning:
+                    test = self.flag_meaning[test.id]          # a found-flag: what it stands for
+                t, p = self.canon_atom(self.alpha.rewrite(test) if self.alpha is not None else test)
                 self._block(st.body, when + [(t, p)])
                 self._block(st.orelse, when + [(t, not p)])
                 continue
@@ -512,11 +533,34 @@ class OrderedFlow:
                     pass
                 elif isinstance(s, ast.Expr) and isinstance(s.value, ast.Call) and norm(s.value.func).startswith('logger.'):
                     pass
+                elif isinstance(s, ast.Assign) and len(s.targets) == 1 and isinstance(s.targets[0], ast.Name) and s.targets[0].id in self.false_flags \
+                        and isinstance(s.value, ast.Constant) and s.value.value is True:
+                    flags.append((s.targets[0].id, path))       # a found-flag: set when an element satisfies the path condition
                 else:
                     return False
             return True
+        flags = []
         if not walk(lo.body, TRUE) or not adds:
             return False
+        for fname, path in flags:
+            # `flag` was False and becomes True iff some element K of the source satisfies K == C: it means `C in SOURCE`
+            c = None
+            if isinstance(path, ast.Compare) and len(path.ops) == 1 and isinstance(path.ops[0], ast.Eq):
+                a_, b_ = path.left, path.comparators[0]
+                if isinstance(a_, ast.Name) and a_.id == K and isinstance(b_, ast.Constant):
+                    c = b_
+                elif isinstance(b_, ast.Name) and b_.id == K and isinstance(a_, ast.Constant):
+                    c = a_
+            if c is None or [x for x, _ in flags].count(fname) != 1:
+                self.false_flags.discard(fname)
+                continue
+            it = lo.iter
+            while isinstance(it, ast.Call) and isinstance(it.func, ast.Name) and it.func.id in ('list', 'tuple') and len(it.args) == 1:
+                it = it.args[0]
+            if isinstance(it, ast.Name) and it.id in self.aliases:
+                it = self.aliases[it.id]
+            self.flag_meaning[fname] = ast.Compare(c, [ast.In()], [it])
+            self.false_flags.discard(fname)
         for name, key, value, path in adds:
             self.env[name].parts.append(OPart(src, key, value, path, when, self._next()))
         return True
